@@ -43,3 +43,70 @@ Lemma lstep_push ch init s t :
   l_ptime (fst (lstep ch init s (LPush t))) = Some t /\
   l_ss (fst (lstep ch init s (LPush t))) = l_ss s.
 Proof. split; reflexivity. Qed.
+
+(** * A shared trunk (tree cases of the correspondence, DelayLink.c13_tree_check)
+
+    Adapters without per-request state: pass-through, DelayFixed, DelayToPush (its state, the newest notification, is
+    written by publications only).  A pull through a chain [sub ++ trunk] whose trunk consists of such adapters
+    (a) asks the source for the trunk's shift of the time the sub-chain hands down, and
+    (b) leaves the trunk's state as it was.
+    Hence several consumers behind one shared trunk do not influence each other: each sees the link  sub ++ trunk
+    driven by the publications and its own pulls. *)
+Fixpoint no_req_state (ch : list adapter) : bool :=
+  match ch with
+  | [] => true
+  | AToPull _ _ :: _ => false
+  | ABuf :: _ => false
+  | _ :: r => no_req_state r
+  end.
+
+Lemma pull_chain_no_req_state ch : forall ss init pt t,
+  no_req_state ch = true -> snd (pull_chain ch ss init pt t) = ss.
+Proof.
+  induction ch as [|a ch IH]; intros ss init pt t H.
+  - destruct ss; reflexivity.
+  - destruct ss as [|s ss]; [reflexivity|].
+    destruct a; cbn [no_req_state] in H; try discriminate; cbn [pull_chain].
+    + specialize (IH ss init pt t H). destruct (pull_chain ch ss init pt t) as [[r b] ss2]. cbn in *. now rewrite IH.
+    + specialize (IH ss init pt (with_delay (AFixed d) s init pt t) H).
+      destruct (pull_chain ch ss init pt (with_delay (AFixed d) s init pt t)) as [[r b] ss2]. cbn in *. now rewrite IH.
+    + specialize (IH ss init pt (with_delay AToPush s init pt t) H).
+      destruct (pull_chain ch ss init pt (with_delay AToPush s init pt t)) as [[r b] ss2]. cbn in *. now rewrite IH.
+Qed.
+
+Lemma pull_chain_app sub : forall trunk ss1 ss2 init pt t,
+  no_buf sub = true -> length ss1 = length sub ->
+  pull_chain (sub ++ trunk) (ss1 ++ ss2) init pt t
+  = (let '(r1, _, ss1') := pull_chain sub ss1 init pt t in
+     let '(r2, b2, ss2') := pull_chain trunk ss2 init pt r1 in
+     (r2, b2, ss1' ++ ss2')).
+Proof.
+  induction sub as [|a sub IH]; intros trunk ss1 ss2 init pt t Hb Hl.
+  - destruct ss1; [|discriminate]. cbn [app pull_chain].
+    destruct (pull_chain trunk ss2 init pt t) as [[r b] s2]. reflexivity.
+  - destruct ss1 as [|s ss1]; [discriminate|]. cbn [length] in Hl. injection Hl as Hl.
+    destruct a; cbn [no_buf] in Hb; try discriminate; cbn [app pull_chain].
+    + rewrite (IH trunk ss1 ss2 init pt t Hb Hl).
+      destruct (pull_chain sub ss1 init pt t) as [[r1 b1] s1'].
+      destruct (pull_chain trunk ss2 init pt r1) as [[r2 b2] s2']. reflexivity.
+    + rewrite (IH trunk ss1 ss2 init pt _ Hb Hl).
+      destruct (pull_chain sub ss1 init pt _) as [[r1 b1] s1'].
+      destruct (pull_chain trunk ss2 init pt r1) as [[r2 b2] s2']. reflexivity.
+    + rewrite (IH trunk ss1 ss2 init pt _ Hb Hl).
+      destruct (pull_chain sub ss1 init pt _) as [[r1 b1] s1'].
+      destruct (pull_chain trunk ss2 init pt r1) as [[r2 b2] s2']. reflexivity.
+    + rewrite (IH trunk ss1 ss2 init pt _ Hb Hl).
+      destruct (pull_chain sub ss1 init pt _) as [[r1 b1] s1'].
+      destruct (pull_chain trunk ss2 init pt r1) as [[r2 b2] s2']. reflexivity.
+Qed.
+
+Theorem shared_trunk sub trunk ss1 ss2 init pt t :
+  no_buf sub = true -> length ss1 = length sub -> no_req_state trunk = true ->
+  pull_time (sub ++ trunk) (ss1 ++ ss2) init pt t = pull_time trunk ss2 init pt (pull_time sub ss1 init pt t) /\
+  snd (pull_chain (sub ++ trunk) (ss1 ++ ss2) init pt t) = snd (pull_chain sub ss1 init pt t) ++ ss2.
+Proof.
+  intros Hb Hl Hs. unfold pull_time. rewrite (pull_chain_app sub trunk ss1 ss2 init pt t Hb Hl).
+  pose proof (pull_chain_no_req_state trunk ss2 init pt (fst (fst (pull_chain sub ss1 init pt t))) Hs) as Hk.
+  destruct (pull_chain sub ss1 init pt t) as [[r1 b1] s1']. cbn [fst snd] in *.
+  destruct (pull_chain trunk ss2 init pt r1) as [[r2 b2] s2']. cbn [fst snd] in *. subst s2'. split; reflexivity.
+Qed.
